@@ -16,7 +16,7 @@ def clamp(x):
 
 W_POW2 = [Fr(1, 4), Fr(1, 2), ONE, ONE, ONE, Fr(2), Fr(4), ZERO]
 W_ANY = W_POW2 + [Fr(3, 4), Fr(3, 2), Fr(3), Fr(5, 4)]
-BIASES = [ONE, ONE, ONE, Fr(1, 2), Fr(3, 2), Fr(2), Fr(3, 4), Fr(5, 4)]
+BIASES = [ONE, ONE, ONE, Fr(1, 2), Fr(3, 2), Fr(2), Fr(3, 4), Fr(5, 4), ZERO]      # 0 is the legal lower end of the bias range
 ALPHAS = [ONE, ONE, Fr(7, 8), Fr(3, 4)]
 
 
@@ -142,8 +142,9 @@ def gen_ops(rng, kb_ids, conn_ids, arities, n_ops=(3, 20), node_level=True, mode
 # ------------------------------------------------------------------ execution on the implementation
 
 def truth_values(kb, atom_vals):
-    """exact truth value of every node under an atom assignment, using the parameters the
-    implementation actually holds"""
+    """exact truth value of every node under an atom assignment, under the parameters the description REQUESTED (the meaning
+    the user configured); where nothing was requested -- defaults, the generated inner formulae of Iff / XOr -- the parameters
+    the implementation holds"""
     import impl
     v = {}
     for i in kb.order:
@@ -157,6 +158,12 @@ def truth_values(kb, atom_vals):
         else:
             ws = [Fr(float(w)) for w in o.neuron.weights.detach().tolist()]
             b = impl.fr(o.neuron.bias)
+            req = getattr(kb, "requested", {}).get(i, {})
+            if cn in ("And", "Or", "Implies"):
+                if "w" in req:
+                    ws = [Fr(w) for w in req["w"]]
+                if "b" in req:
+                    b = Fr(req["b"])
             if cn in ("And", "Iff", "XOr"):
                 v[i] = clamp(b - sum(w * (1 - x) for w, x in zip(ws, ops)))
             elif cn == "Or":
